@@ -313,7 +313,21 @@ def r3(ctx: Ctx, rid: str = "C06.R3") -> None:
     if not prot or not refr:
         raise AnalysisError("marker load / metadata refresh calls not found in collect")
     r0 = refr[0]
-    ok = any(p.id in dom[r0.id] for p in prot)
+    # a GENERATOR's body runs where the generator object is consumed, not where it is created: for a loader that yields, the
+    # marker read happens at the first statement that reads the variable holding the generator
+    eff_prot = []
+    for p in prot:
+        lazy = any(any(isinstance(y, (ast.Yield, ast.YieldFrom)) for y in ast.walk(t.node)) for t in ctx.eff.callees(col, p)
+                   if t.name == "_load_inflight_protection")
+        st = p.stmt
+        var = st.targets[0].id if lazy and isinstance(st, ast.Assign) and len(st.targets) == 1 and isinstance(st.targets[0], ast.Name) \
+            and st.value is p.ast else None
+        if var is None:
+            eff_prot.append(p)
+            continue
+        eff_prot += [n for n in g.nodes if n.ast is not None and n.kind in ("stmt", "call", "branch", "loop", "return") and n.stmt is not st
+                     and var in names_in(n.ast)]
+    ok = any(p.id in dom[r0.id] for p in eff_prot)
     ctx.ob(rid, col, "marker read precedes the metadata read", r0, ok,
            "markers are removed only AFTER a commit's pointer flip, so reading markers first guarantees: marker gone => "
            "the later metadata read sees that commit. Reading metadata first leaves a window in which a commit lands and "
@@ -387,7 +401,7 @@ def sweep_model(ctx: Ctx) -> Dict[str, object]:
     rets = [n for n in g.nodes if n.kind == "return" and n.id in g.reachable()]
     rnames = {nm for r in rets for nm in names_in(r.ast.value)}  # type: ignore[union-attr]
     adds = [n for n in g.calls() if isinstance(n.ast, ast.Call) and isinstance(n.ast.func, ast.Attribute)
-            and n.ast.func.attr in ("add", "update") and dotted(n.ast.func.value) in rnames]
+            and n.ast.func.attr in ("add", "update", "append", "extend") and dotted(n.ast.func.value) in rnames]
     deletes = [n for n in ctx.calls(lp, storage="delete_file") if any(fr.kind == "loop" and fr.node is ml.ast for fr in n.frames)]
 
     def has_stat(org) -> bool:
@@ -426,7 +440,7 @@ def r_honoured(ctx: Ctx, rid: str) -> None:
     rets = [n for n in g.nodes if n.kind == "return" and n.id in g.reachable()]
     rnames = {nm for r in rets for nm in names_in(r.ast.value)}  # type: ignore[union-attr]
     adds = [n for n in g.calls() if isinstance(n.ast, ast.Call) and isinstance(n.ast.func, ast.Attribute)
-            and n.ast.func.attr in ("add", "update") and dotted(n.ast.func.value) in rnames]
+            and n.ast.func.attr in ("add", "update", "append", "extend") and dotted(n.ast.func.value) in rnames]
     ctx.ob(rid, lp, "the returned set is populated inside the marker loop", adds[0] if adds else ml,
            bool(adds) and all(any(fr.kind == "loop" and fr.node is ml.ast for fr in a.frames) for a in adds), "", nontrivial=False)
     # the added value is the marker's target
